@@ -79,9 +79,25 @@ FP = [('jedi/inference/imports.py', 'import_module'),
       ('jedi/api/environment.py', 'Environment._get_subprocess'),
       ('jedi/inference/compiled/subprocess/__init__.py', 'CompiledSubprocess._get_process')]
 
+# fingerprints of the modelled definitions when the model was transcribed; a change raises no alarm, it
+# multiplies the number of correspondence / sentinel cases (DESIGN §2 "change-directed intensification")
 BASE_FP = {
-    'jedi/inference/imports.py:import_module': None,
+    "jedi/inference/imports.py:import_module": "a18d442b872a67b3",
+    "jedi/inference/imports.py:_load_builtin_module": "74196bb418ac6d10",
+    "jedi/inference/imports.py:_load_python_module": "268579e362d6ded9",
+    "jedi/inference/compiled/access.py:load_module": "b12ceefe21956d1d",
+    "jedi/inference/compiled/access.py:DirectObjectAccess.getattr_paths": "9f49b2e4e906a813",
+    "jedi/inference/compiled/subprocess/functions.py:get_module_info": "956dd70fbd60f509",
+    "jedi/inference/compiled/subprocess/functions.py:_find_module": "f83bfc60d96e682a",
+    "jedi/inference/compiled/subprocess/functions.py:_find_module_py33": "59c61244327e45f3",
+    "jedi/inference/compiled/__init__.py:load_module": "249219f6afeb21e8",
+    "jedi/api/project.py:Project.__init__": "2d57fdb059bcfe47",
+    "jedi/api/project.py:Project._get_base_sys_path": "3b64cea3ba579917",
+    "jedi/api/project.py:get_default_project": "2a6a031af624610d",
+    "jedi/api/environment.py:Environment._get_subprocess": "3ea2f3a0e4bef14e",
+    "jedi/inference/compiled/subprocess/__init__.py:CompiledSubprocess._get_process": "3afb511dc60fbfd3",
 }
+INTENSIFY = [1]
 
 
 # =============================================================================================
@@ -632,7 +648,7 @@ def stream_swap(ctx):
     rng = ctx.rng
     toks = ['a', 'b', 'c', '', 'p/x', 'é']
     cases = []
-    n = ctx.n(400, 4000)
+    n = ctx.n(400, 4000) * INTENSIFY[0]
     # exhaustive core: every (function, arg given?, effect, exception)
     for which in ('load', 'info'):
         for given in (True, False):
@@ -847,7 +863,7 @@ def stream_route(ctx):
                 for unsafe in (False, True):
                     for top in (True, False):
                         cases.append((auto, names, fr, unsafe, ['/b0', '', '/b1'], ['/proj', '/b1', '/proj/pkg', '/b0', ''], top))
-    n = ctx.n(800, 6000)
+    n = ctx.n(800, 6000) * INTENSIFY[0]
     while len(cases) < n:
         auto = rng.sample(name_pool, rng.randint(0, 3))
         names = [rng.choice(name_pool) for _ in range(rng.randint(1, 3))]
@@ -1648,7 +1664,7 @@ def stream_sentinel(ctx, broken_tie=False):
     root_base = os.path.join(ctx.tmp, 'trees')
     os.makedirs(root_base, exist_ok=True)
     os.environ['C12_SENTINEL_DIR'] = sdir
-    ncase = ctx.n(40, 400) * (2 if broken_tie else 1)
+    ncase = ctx.n(40, 400) * (2 if (broken_tie or INTENSIFY[0] > 1) else 1)
     nq = ctx.n(21, 36)
     cases = []
     fixed_variants = ['plain', 'plain', 'json-benign', 'json-unsafe', 'json-env', 'json-both']
@@ -1809,6 +1825,11 @@ def run(ctx):
     common.setup_jedi(os.path.join(ctx.tmp, 'cache'))
     ctx.proofs()
     ctx.cov['fingerprints'] = common.fingerprint(FP)
+    changed = sorted(k for k, v in ctx.cov['fingerprints'].items() if BASE_FP.get(k) != v)
+    ctx.cov['fingerprints_changed'] = changed
+    if changed and ctx.quick:
+        INTENSIFY[0] = 3
+    ctx.cov['intensified'] = INTENSIFY[0] > 1
     ctx.cov['rule'] = (
         'sites: every listed primitive call / state write in every .py of jedi/ (exhaustive, seed-independent); '
         'prog: the two functions (exhaustive); swap: exhaustive function x arg-given x effect x exception core + seeded '
